@@ -373,6 +373,9 @@ def run_generated(spec, rec, rng, pint):
                 oc, val = outcome(lambda: ureg.convert(one, sa, sb), pint)
                 rec.case(("gen", spec["seed"], i, sa, sb))
                 rec.count("pairs_convertible" if same else "pairs_refused")
+                if oc == "range":
+                    rec.count("numeric_range_skipped")   # float factor overflowed: says nothing about the relation
+                    continue
                 if (oc == "ok") is not same or (oc != "ok" and oc != "dimerr"):
                     rec.violation("generated-relation", {"text": txt, "src": sa, "dst": sb,
                                                          "model_same": same, "outcome": oc,
